@@ -499,7 +499,7 @@ func (c *converter) Input(prompt string, valueUsed bool) (string, error) {
 	if len(prompt) > 0 {
 		prompt = fmt.Sprintf(" -p \"%s\"", prompt)
 	}
-	c.addLine(fmt.Sprintf("read%s %s", prompt, helper))
+	c.addLine(fmt.Sprintf("IFS= read -r%s %s", prompt, c.varName(helper, false))) // Read the line as it is (no backslash processing, no trimming).
 	return c.VarEvaluation(helper, valueUsed, false)
 }
 
